@@ -7,4 +7,8 @@ module Nat :
   val leb : nat -> nat -> bool
 
   val ltb : nat -> nat -> bool
+
+  val compare : nat -> nat -> comparison
+
+  val min : nat -> nat -> nat
  end
